@@ -98,6 +98,24 @@ def funnel_case(a):
         judge("rdsquashfs --cat path", r, lambda: None if r.out == b"the file d/f\n" else "other content: %r" % r.out[:40])
         r = run_tool([FT["rdsquashfs"], "-s", sps, base], timeout=30)
         judge("rdsquashfs --stat path", r, lambda: None if b"Size: 13" in r.out or b"13" in r.out else "stat of another entry: %r" % r.out[:120])
+        # 4. --root-becomes of sqfs2tar and tar2sqfs
+        import io, tarfile
+        r = run_tool([FT["sqfs2tar"], "-r", sps, base], timeout=30)
+
+        def members_ok():
+            try:
+                names = [m.name for m in tarfile.open(fileobj=io.BytesIO(r.out))]
+            except Exception as ex:
+                return "unreadable archive: %r" % ex
+            bad_ = [n for n in names if not (n == "d/f" or n.startswith("d/f/"))]
+            return None if names and not bad_ else "members not under d/f: %r" % names[:4]
+        judge("sqfs2tar --root-becomes", r, members_ok)
+        data = tarmk.archive([TE(b"d", "dir"), TE(b"d/f", "dir"), TE(b"d/f/x", "file", content=b"x"), TE(b"other", "file", content=b"o")], "gnu")
+        if os.path.exists(img):
+            os.unlink(img)
+        r = run_tool([FT["tar2sqfs"], "-q", "-c", "gzip", "-r", sps, img], stdin=data, timeout=30)
+        judge("tar2sqfs --root-becomes", r, lambda: None if (packcheck.decode(img)[0] is not None and sorted(packcheck.decode(img)[0].tree) == [b"", b"x"]) else
+              "tree is %r, expected only x" % (sorted(packcheck.decode(img)[0].tree)[:5] if packcheck.decode(img)[0] is not None else None))
         return sp, good, out
     finally:
         shutil.rmtree(wd, ignore_errors=True)
@@ -123,7 +141,7 @@ def main():
             d = json.load(open(os.path.join(cr.replay, "case.json")))
             if d.get("funnel"):
                 FSCR = sd
-                FT.update(build.build_tools(v, os.path.join(sd, "bin"), tools=["gensquashfs", "tar2sqfs", "rdsquashfs"]))
+                FT.update(build.build_tools(v, os.path.join(sd, "bin"), tools=["gensquashfs", "tar2sqfs", "rdsquashfs", "sqfs2tar"]))
                 packcheck.TOOLS.update(FT)
                 print(funnel_case((d["spelling"].encode("latin1"), d["good"])))
                 return 1
@@ -159,7 +177,7 @@ def main():
                              replay_sh="python3 /verif/checks/C18.py --replay .")
         # ---- the funnel: every spelling of one path through every place where a tool takes a path from outside
         FSCR = sd
-        FT.update(build.build_tools(v, os.path.join(sd, "bin"), tools=["gensquashfs", "tar2sqfs", "rdsquashfs"]))
+        FT.update(build.build_tools(v, os.path.join(sd, "bin"), tools=["gensquashfs", "tar2sqfs", "rdsquashfs", "sqfs2tar"]))
         packcheck.TOOLS.update(FT)
         good, bad = spellings(6 if cr.quick else 8)
         fres = pmap(funnel_case, [(s_, True) for s_ in good] + [(s_, False) for s_ in bad])
@@ -171,7 +189,7 @@ def main():
                     sp, "names d/f, no '..' component" if is_good else "contains a '..' component", name, kind, why),
                     files={"case.json": json.dumps({"funnel": True, "spelling": sp.decode("latin1"), "good": is_good})},
                     replay_sh="python3 /verif/checks/C18.py --replay .")
-        cr.coverage["funnel_spellings"] = {"clean_equivalents": len(good), "with_dotdot": len(bad), "funnels": 6}
+        cr.coverage["funnel_spellings"] = {"clean_equivalents": len(good), "with_dotdot": len(bad), "funnels": 8}
         tot["evaluations"] += n_funnel
         cr.coverage.update(evaluations=tot["evaluations"],
                            distinct_nontrivial=tot["refused"] + tot["rewritten"],
@@ -182,7 +200,7 @@ def main():
                                 "Checked per string: return value and buffer == independent specification, no write outside "
                                 "[start, original terminator] (guard bytes + ASan), output clean, idempotent, "
                                 "is_filename_sane(s,0/1) == (s not in {'.','..'} and '/' not in s). Funnel: every string over {d,f,.,/} up to length 6 (quick) / 8 whose clean form is d/f, and those "
-                                "with one '..' component, as gensquashfs link target and entry path, tar2sqfs link target and member name, rdsquashfs --cat / --stat path: accepted and resolving "
+                                "with one '..' component, as gensquashfs link target and entry path, tar2sqfs link target and member name, rdsquashfs --cat / --stat path, --root-becomes of sqfs2tar and tar2sqfs: accepted and resolving "
                                 "to d/f, or refused, exactly as the specification says.")
         cr.assumptions += ["non-Windows build of filename_sane.c (as configured in /repo)",
                            "strings contain no NUL (C strings)"]
